@@ -27,7 +27,28 @@ func init() {
 
 var kvBase = time.Date(2030, 1, 1, 0, 0, 0, 0, time.UTC)
 
+// getHook signals the completion of every GET the client issues (used by the Wait probe).
+type getHook struct{ done chan struct{} }
+
+func (h *getHook) BeforeProcess(ctx context.Context, cmd goredis.Cmder) (context.Context, error) {
+	return ctx, nil
+}
+func (h *getHook) AfterProcess(ctx context.Context, cmd goredis.Cmder) error {
+	if cmd.Name() == "get" {
+		select {
+		case h.done <- struct{}{}:
+		default:
+		}
+	}
+	return nil
+}
+func (h *getHook) BeforeProcessPipeline(ctx context.Context, cmds []goredis.Cmder) (context.Context, error) {
+	return ctx, nil
+}
+func (h *getHook) AfterProcessPipeline(ctx context.Context, cmds []goredis.Cmder) error { return nil }
+
 type kvBackend struct {
+	hook    *getHook
 	st      kvs.Storage
 	mr      *miniredis.Miniredis
 	now     int
@@ -49,6 +70,8 @@ func newKvBackend(kind string) *kvBackend {
 		b.mr = mr
 		b.redis = true
 		b.st = kredis.New(&goredis.Options{Addr: mr.Addr()})
+		b.hook = &getHook{done: make(chan struct{}, 1)}
+		kredis.VerifAddHook(b.st, b.hook)
 		kredis.VerifSetClock(clock)
 		b.cleanup = func() { kredis.VerifClose(b.st); mr.Close(); kredis.VerifSetClock(nil) }
 	} else {
@@ -232,16 +255,35 @@ func (b *kvBackend) exec(ctx *Ctx, w []string) string {
 		return "keys [" + strings.Join(ks, ",") + "]"
 	case "wait":
 		// one probe: does WaitForVersionChange return, or would it block?
-		var wc context.Context
-		var cancel context.CancelFunc
-		if b.redis {
-			wc, cancel = context.WithTimeout(c, 3*time.Millisecond)
-		} else {
-			wc, cancel = context.WithCancel(c)
-			cancel() // in-memory: conditions are tested before the context
-		}
+		wc, cancel := context.WithCancel(c)
 		defer cancel()
-		err := b.st.WaitForVersionChange(wc, w[1], b.ver(w[2]))
+		var err error
+		if b.redis {
+			// the Redis client polls: it "blocks" iff it goes to sleep after its first GET completed.
+			// No wall-clock limit on the GET itself; 5 ms of grace for the comparison after it.
+			select {
+			case <-b.hook.done:
+			default:
+			}
+			res := make(chan error, 1)
+			go func() { res <- b.st.WaitForVersionChange(wc, w[1], b.ver(w[2])) }()
+			select {
+			case err = <-res:
+			case <-b.hook.done:
+				select {
+				case err = <-res:
+				case <-time.After(30 * time.Millisecond):
+					cancel()
+					err = <-res
+				}
+			case <-time.After(5 * time.Second):
+				cancel()
+				err = <-res
+			}
+		} else {
+			cancel() // in-memory: conditions are tested before the context
+			err = b.st.WaitForVersionChange(wc, w[1], b.ver(w[2]))
+		}
 		if err == nil {
 			return "nil"
 		}
